@@ -79,6 +79,21 @@ def make_case(rng):
     return {'src': src, 'opts': {'pack': '*', 'lang': rng.choice(['', 'de'])}, 'multi': False, 'kind': 'flow',
             'words': words, 'rels': rels, 'seps': seps}
 
+def make_arg_case(rng):
+    """words inside the argument of a macro that passes its argument on, with the closing brace on a line of its own"""
+    names = gen.Names(rng)
+    w = [names.word() for _ in range(5)]
+    pre, op = rng.choice([('\\newcommand{\\hl}[1]{#1}\n', '\\hl{'), ('\\newcommand{\\hm}[2]{#2 #1}\n', '\\hm{x}{'), ('', '\\framebox{'),
+                          ('', '\\textcolor{red}{'), ('', '\\LTalter{x}{'), ('', '\\emph{'), ('', '{')])
+    s01 = rng.choice([' ', '\n', '\n\n']) + op
+    s12 = rng.choice([' ', '\n', '  '])
+    s23 = rng.choice(['\n', ' \n', '\n  ', '', ' ']) + '}' + rng.choice(['\n', ' ', '\n\n', ' \n', '\n \n'])
+    s34 = rng.choice([' ', '\n'])
+    src = pre + w[0] + s01 + w[1] + s12 + w[2] + s23 + w[3] + s34 + w[4] + rng.choice(['', '\n'])
+    if pre and op == '\\hm{x}{':
+        pass
+    return {'src': src, 'opts': {'pack': '*', 'lang': ''}, 'multi': False, 'kind': 'flow-arg', 'words': w, 'rels': [], 'seps': [s01, s12, s23, s34]}
+
 def expected_rel(sep):
     """read a separator the way TeX does (independent second computation used by judge)"""
     i = 0; n = len(sep)
@@ -170,6 +185,7 @@ def run(ctx):
     n = ctx.scale(3000, 60000)
     rng = ctx.rng
     cases = [make_case(rng) for _ in range(n)]
+    cases += [make_arg_case(rng) for _ in range(max(100, n // 15))]
     ctx.stats['_rule'] = ('sequences of unique words separated by random layouts of blanks, tabs, line breaks, blank lines, comment lines, '
                           'vanishing constructs (labels, index entries, unknown macros, skipped regions); expected relation glued / same paragraph / '
                           'blank line computed by reading the separator as TeX does; non-trivial = at least one vanishing construct or comment')
